@@ -10,8 +10,10 @@ EXTENDS Prob, Json
 
 CONSTANTS Backends, Precs, Dense, EmitCases
 
-VARIABLES backend, prec, last
-vars == <<backend, prec, last>>
+VARIABLES backend, prec, last,
+          first      \* an earlier segment of the same process: [backend, prec] on which every primitive family was called first, or none
+vars == <<backend, prec, last, first>>
+NoFirst == [backend |-> "none", prec |-> "none"]
 
 \* ---- lattices (precision-dependent at the small end: denormals of the respective format)
 Counts == <<D(0, 0), D(1, 0), D(2, 0), D(5, 0), D(10, 0), D(100, 0), D(1, 4), D(1, 6), D(1, 8), D(5, -1), D(25, -1), D(37, -1), D(1234567, -2)>>
@@ -50,12 +52,16 @@ Equivariance == {[kind |-> "equivariance", fn |-> f, z |-> D(z, -1), mu |-> D(m,
                     f \in {"normal_cdf", "normal_logpdf"}, z \in Range(ZExact), s \in Range(SigExact), m \in Range(MuExact)}
 Obligations(p) == ValuePois(p) \cup ValueNorm \cup ValueCdf \cup Recurrence(p) \cup Reflection \cup Monotone \cup Equivariance
 
-Init == backend = "none" /\ prec = "none" /\ last = [kind |-> "none"]
-SetBackend == \E b \in Backends, p \in Precs : backend = "none" /\ backend' = b /\ prec' = p /\ UNCHANGED last
-CallValue == \E o \in ValuePois(prec) \cup ValueNorm \cup ValueCdf : backend # "none" /\ last.kind = "none" /\ last' = o /\ UNCHANGED <<backend, prec>>
+Init == backend = "none" /\ prec = "none" /\ last = [kind |-> "none"] /\ first = NoFirst
+SetBackend == \E b \in Backends, p \in Precs : backend = "none" /\ backend' = b /\ prec' = p /\ UNCHANGED <<last, first>>
+\* the process first uses every primitive family at ONE precision of a backend, then switches that backend to the OTHER precision:
+\* nothing a backend class remembers from the first segment (constants, compiled functions) may leak into the second
+SwitchPrecision == \E p \in Precs : /\ backend # "none" /\ last.kind = "none" /\ first = NoFirst /\ p # prec
+                                      /\ first' = [backend |-> backend, prec |-> prec] /\ prec' = p /\ UNCHANGED <<backend, last>>
+CallValue == \E o \in ValuePois(prec) \cup ValueNorm \cup ValueCdf : backend # "none" /\ last.kind = "none" /\ last' = o /\ UNCHANGED <<backend, prec, first>>
 CallRelation == \E o \in Recurrence(prec) \cup Reflection \cup Monotone \cup Equivariance :
-                   backend # "none" /\ last.kind = "none" /\ last' = o /\ UNCHANGED <<backend, prec>>
-Next == SetBackend \/ CallValue \/ CallRelation
+                   backend # "none" /\ last.kind = "none" /\ last' = o /\ UNCHANGED <<backend, prec, first>>
+Next == SetBackend \/ SwitchPrecision \/ CallValue \/ CallRelation
 Spec == Init /\ [][Next]_vars
 
 -----------------------------------------------------------------------------
@@ -93,5 +99,5 @@ EquivarianceOK == last.kind = "equivariance" =>
                     /\ last.x[1] = last.z[1] * last.sigma[1] + 100 * last.mu[1]
                     /\ last.x[1] % 25 = 0
 
-Emit == (EmitCases /\ last.kind # "none") => PrintT(ToJson([backend |-> backend, prec |-> prec, obligation |-> last]))
+Emit == (EmitCases /\ last.kind # "none") => PrintT(ToJson([backend |-> backend, prec |-> prec, first |-> first, obligation |-> last]))
 =============================================================================
